@@ -3,4 +3,4 @@ From Martian.Common Require Import ExtractBase.
 From Martian.C10 Require Import Gen_H2Const Model.
 Extraction Language OCaml.
 Extraction "model.ml" base_anchor cfg_fixed cfg_orig cfg_src cap init step run accepts
-  quiescentb obs_of c10_ok census goroutines predict measure.
+  quiescentb obs_of c10_ok census goroutines predict measure blocks.
